@@ -141,7 +141,31 @@ def gen(rng, kind, tier):
         # additional information stored alongside (documented argument of to_file)
         case["info"] = [{"note": "run 7"}, {"time_000000": 1, "track_000000": [1, 2]}, {"emulsion": {"a": None}},
                         {"droplet_track": "x", "droplet_class": "None"}][int(rng.integers(4))]
+    if case is not None and not case.get("stale_dtype"):
+        flat = [d for ms in _all_members(case) for d in ms]
+        if flat and all(d["cls"] == "SphericalDroplet" for d in flat) and rng.random() < 0.4:
+            # round 7 (C08_19): the droplets belong to a class the user derived from SphericalDroplet inside a function
+            # (a factory), as the documentation of the class registry allows; it is written and read like any other
+            for d in flat:
+                d["user_nested"] = True
     return case
+
+
+_NESTED: list = []
+
+
+def _nested_cls():
+    if not _NESTED:
+        def factory():
+            from droplets import SphericalDroplet
+
+            class SphereFromFactory(SphericalDroplet):
+                """user-defined droplet class with the layout of its parent, defined in a nested scope"""
+
+            return SphereFromFactory
+
+        _NESTED.append(factory())
+    return _NESTED[0]
 
 
 def _gen(rng, kind, tier):
@@ -202,6 +226,8 @@ def _gen(rng, kind, tier):
 def _mk(d):
     from .c03 import make_droplet
 
+    if d.get("user_nested"):
+        return _nested_cls()(np.asarray(d["pos"], float), d["radius"])
     if d["cls"] == "PerturbedDroplet3DAxisSym" and (d["pos"][0] != 0 or d["pos"][1] != 0):
         # on the axis up to round-off, as left behind by an assignment or a fit (not by the constructor)
         obj = make_droplet({**d, "pos": [0.0, 0.0, d["pos"][2]]})
